@@ -83,14 +83,15 @@ func NewWorld(rng *rand.Rand, o WorldOpts) (*World, error) {
 		if o.Stake != nil {
 			stake = o.Stake(i, rng)
 		}
+		coms := []uint64{o.ChainID}
+		if o.Committees != nil {
+			coms = o.Committees(i, rng)
+		}
 		if i == 0 && !o.NoAnchor {
 			// the anchor: a validator the generator never pauses, unstakes or edits and that signs every block, so the
 			// committee is never empty (a chain whose validators all left cannot certify blocks; that is not a wedge)
 			stake = 5_000_000_000
-		}
-		coms := []uint64{o.ChainID}
-		if o.Committees != nil {
-			coms = o.Committees(i, rng)
+			coms = []uint64{o.ChainID} // only the own committee: a lowered MaxCommittees must not be able to trim it away
 		}
 		compound := true
 		if o.Compound != nil {
